@@ -350,9 +350,23 @@ def monitor(calls, xmlgenerator=False):
     return problems
 
 
-def tree_of(calls, keep_ws=False):
+def _resolve_tokens(text, scope):
+    out = []
+    for tok in text.split(" "):
+        pfx, sep, loc = tok.partition(":")
+        if sep and (pfx or None) in scope and scope[pfx or None]:
+            out.append("{%s}%s" % (scope[pfx], loc))
+        elif not sep and tok and scope.get(None):
+            out.append("{%s}%s" % (scope[None], tok))
+        else:
+            out.append(tok)
+    return " ".join(out)
+
+
+def tree_of(calls, keep_ws=False, qnames=()):
     """Infoset tree of a SAX stream: (qname, {attr qname: value}, [text | child ...]); xsi:type values are resolved to
-    Clark names through the scope in force (so streams that differ only in prefix choice compare equal)."""
+    Clark names through the scope in force (so streams that differ only in prefix choice compare equal); text / attribute
+    values of the element / attribute names listed in `qnames` (QName-typed by the model) are resolved the same way."""
     scopes = [{}]
     pending = []
     stack = [("#doc", {}, [])]
@@ -373,6 +387,9 @@ def tree_of(calls, keep_ws=False):
                     ns = scope.get(pfx or None)
                     aval = "{%s}%s" % (ns, loc) if ns else loc
                 attrs[_q((auri, alocal))] = aval
+            for k in list(attrs):
+                if k in qnames and isinstance(attrs[k], str):
+                    attrs[k] = _resolve_tokens(attrs[k], {kk: vv for kk, vv in scope.items() if kk is not None})  # attributes: no default ns
             node = (_q(c[1]), attrs, [])
             stack[-1][2].append(node)
             stack.append(node)
@@ -383,7 +400,11 @@ def tree_of(calls, keep_ws=False):
             else:
                 kids.append(c[1])
         elif kind == "end":
-            stack.pop()
+            node = stack.pop()
+            if node[0] in qnames:
+                for i, kid in enumerate(node[2]):
+                    if isinstance(kid, str):
+                        node[2][i] = _resolve_tokens(kid, scopes[-1])
             scopes.pop()
     return stack[0][2]
 
